@@ -567,7 +567,51 @@ func checkCompileAfterCompile(first, then string) []engine.Violation {
 	return nil
 }
 
+// Oracle (c): a run does not change the data it reads.  The typed tree hands out the very same
+// datum objects (leaf-list slices included) on every GetValue, as a caching data tree would: after
+// machine A has run on it, machine B must observe what it observes on a freshly built tree.
+var sharedValueExprs = []string{"lls < 4", "lls = 'a'", "lln > 1", "lln <= lls", "count(lls)", "string(lls)", "lls != lln", "sum(lln)", "lls", "string-length(lls)", "ll1 >= 'a'", "- lln < 0", "lls + 1", "not(lls < lln)"}
+
+func runShared(m *xpath.Machine, t *mock.Tree) string {
+	t.Reset()
+	return xpx.RunMachine(m, t.At(mock.Elem{Name: "ctx"})).String()
+}
+
+func checkInputsUnchanged(a, b string) []engine.Violation {
+	verifrt.RestoreAll()
+	ma, errA, pa := xpx.Compile(a, nil)
+	mb, errB, pb := xpx.Compile(b, nil)
+	if errA != nil || errB != nil || pa != nil || pb != nil {
+		return []engine.Violation{{Key: "harness-shared-value-expression-does-not-compile", Witness: a + " ; " + b}}
+	}
+	fresh, _ := xpx.ScalarTree()
+	alone := runShared(mb, fresh)
+	shared, _ := xpx.ScalarTree()
+	runShared(ma, shared)
+	after := runShared(mb, shared)
+	if after != alone {
+		return []engine.Violation{{Key: "run-changes-the-data-it-reads", Witness: fmt.Sprintf("run %s, then %s on the same data tree", a, b),
+			Detail: fmt.Sprintf("on a fresh tree %q; after the other run %q", alone, after), Harness: "matrix", Replay: engine.JSON(matrixRec{Machine: "shared:" + a, Then: b})}}
+	}
+	return nil
+}
+
 func functionMatrix(c *engine.Ctx) {
+	for _, a := range sharedValueExprs {
+		for _, b := range sharedValueExprs {
+			id := "matrix:s:" + a + "|" + b
+			if !c.Owns(id) || !c.Case(id) {
+				continue
+			}
+			c.Add("states", 1)
+			c.Nontrivial()
+			vs := checkInputsUnchanged(a, b)
+			c.Outcome(fmt.Sprintf("matrix:inputs-unchanged:viol=%v", len(vs) > 0))
+			for _, v := range vs {
+				c.Report(v)
+			}
+		}
+	}
 	menu := fnArityMenu()
 	accepted := 0
 	for _, call := range fnCalls {
@@ -627,6 +671,9 @@ func replay(c *engine.Ctx, sub string, raw json.RawMessage) []engine.Violation {
 		var mr matrixRec
 		if json.Unmarshal(raw, &mr) != nil {
 			return []engine.Violation{{Key: "harness-bad-replay-file"}}
+		}
+		if strings.HasPrefix(mr.Machine, "shared:") {
+			return checkInputsUnchanged(strings.TrimPrefix(mr.Machine, "shared:"), mr.Then)
 		}
 		if mr.Machine != "" {
 			return checkMachineAfterCompile(mr.Machine, mr.Then)
